@@ -370,7 +370,13 @@ func c19(r *ev.Run) {
 	r.Set("first_fault_status_histogram", statuses)
 	// the fault list against the real binary
 	srv, err := startServer()
-	if err != nil {
+	if r.Violations() > 0 {
+		// the in-process exploration already decided; do not keep a possibly wedged server busy
+		if err == nil {
+			srv.stop()
+		}
+		r.NotExhaustive("loopback pass skipped: the in-process exploration already reported violations")
+	} else if err != nil {
 		r.NotExhaustive("real server binary unavailable: " + err.Error())
 	} else {
 		defer srv.stop()
@@ -378,6 +384,9 @@ func c19(r *ev.Run) {
 		var live int64
 		slow := 0
 		for _, mode := range []bool{true, false} {
+			if slow >= 3 {
+				break
+			}
 			cl := &http.Client{Timeout: 10 * time.Second, Transport: &http.Transport{DisableKeepAlives: !mode, MaxIdleConnsPerHost: 1}}
 			for i, f := range fl {
 				if len(f.Req.uri()) > 4000 || strings.ContainsAny(f.Req.uri(), " \x00") {
@@ -389,6 +398,9 @@ func c19(r *ev.Run) {
 					if strings.Contains(err.Error(), "Timeout") || strings.Contains(err.Error(), "deadline") {
 						slow++
 						r.NotExhaustive(fmt.Sprintf("live request %q hit the 10 s guard (reported as a cap, the statement budget decides)", f.Name))
+						if slow >= 3 {
+							break // a wedged server would cost 10 s per remaining request
+						}
 						continue
 					}
 					if f.Req.Method == "HEAD" || strings.Contains(err.Error(), "malformed") || strings.Contains(err.Error(), "EOF") && len(f.Req.body()) > 1<<20-1000 {
